@@ -15,7 +15,7 @@ MANIFEST = {
             'coefficients to any t parties\' shares is a bijection (explicit inverse by interpolation; injectivity via a '
             'coefficient-level root bound), and for fewer than t parties every view has the same number of preimages; so '
             'the view of <= t parties is uniform and independent of the secret when coefficients are uniform. The '
-            'explicit inverse is replayed through the real random_split every run; small fields are enumerated exhaustively.',
+            'explicit inverse is replayed through the real random_split every run; small fields are enumerated exhaustively, for thresha.random_split and (under NumPy) thresha.np_random_split.',
     'note': 'Trusted: Coq kernel; the random_split model (tied to thresha by C12\'s exact correspondence and by replaying psi '
             'here); uniformity of secrets.randbelow is an oracle assumption; "uniform distribution" is stated as the counting '
             'fact (exactly one coefficient vector per view), not in a probability library.',
@@ -90,19 +90,32 @@ def run(ctx):
              ('GF(3^2)', finfields.GF(finfields.find_irreducible(3, 2)), 9)]
     maxm = ctx.n(4, 5)
     n_enum = 0
-    for name, F, q in small:
+    try:
+        import numpy as np
+    except ImportError:
+        np = None
+    variants = [('list', lambda F, ss, t, m: thresha.random_split(F, [F(s) for s in ss], t, m))]
+    if np is not None and hasattr(thresha, 'np_random_split'):
+        def np_split(F, ss, t, m):
+            sh = thresha.np_random_split(F, F.array([F(s).value for s in ss], check=False), t, m)
+            return [list(row) for row in sh]
+        variants.append(('np', np_split))
+    else:
+        ctx.notes.append('NumPy not importable: np_random_split not enumerated in this run')
+    for variant, split in variants:
+      for name, F, q in small:
         for m in range(2, min(maxm, q - 1) + 1):
             for t in range(1, m):
                 for batch in (1, 2):
-                    if q ** (t * batch) * q ** batch > ctx.n(20000, 200000):
+                    if q ** (t * batch) * q ** batch > ctx.n(20000, 200000) // (2 if variant == 'np' else 1):
                         continue
                     coalitions = [C for r in range(1, t + 1) for C in itertools.combinations(range(m), r)]
                     ref = None
                     for ss in itertools.product(range(q), repeat=batch):
                         hist = {C: {} for C in coalitions}
                         total = Fraction(0)
-                        for sh, prob in all_runs(lambda: thresha.random_split(F, [F(s) for s in ss], t, m), 4096):
-                            vals = [tuple(str(v) for v in sh[i]) for i in range(m)]
+                        for sh, prob in all_runs(lambda: split(F, ss, t, m), 4096):
+                            vals = [tuple(str(F(v) if not isinstance(v, F) else v) for v in sh[i]) for i in range(m)]
                             for C in coalitions:
                                 v = tuple(vals[i] for i in C)
                                 hist[C][v] = hist[C].get(v, 0) + prob
@@ -112,21 +125,21 @@ def run(ctx):
                             want = Fraction(1, q ** (len(C) * batch))
                             if total != 1 or len(hist[C]) != q ** (len(C) * batch) or set(hist[C].values()) != {want}:
                                 worst = sorted(hist[C].items(), key=lambda kv: kv[1])
-                                ctx.violation('view-not-uniform %s t=%d m=%d batch=%d' % (name, t, m, batch),
-                                              {'field': name, 't': t, 'm': m, 'secrets': list(ss), 'coalition': list(C),
+                                ctx.violation('view-not-uniform %s t=%d m=%d batch=%d%s' % (name, t, m, batch, '' if variant == 'list' else ' np_random_split'),
+                                              {'field': name, 't': t, 'm': m, 'secrets': list(ss), 'coalition': list(C), 'variant': variant,
                                                'distinct_views': len(hist[C]), 'expected_views': q ** (len(C) * batch),
                                                'least_likely': [str(worst[0][0]), str(worst[0][1])],
                                                'most_likely': [str(worst[-1][0]), str(worst[-1][1])]})
                         if ref is None:
                             ref = hist
                         elif hist != ref:
-                            ctx.violation('view-depends-on-secret %s t=%d m=%d batch=%d' % (name, t, m, batch),
-                                          {'field': name, 't': t, 'm': m, 'secrets': list(ss)})
-                        ctx.case({'field': name, 't': t, 'm': m, 'secrets': list(ss)}, kind='exhaustive ' + name)
+                            ctx.violation('view-depends-on-secret %s t=%d m=%d batch=%d%s' % (name, t, m, batch, '' if variant == 'list' else ' np_random_split'),
+                                          {'field': name, 't': t, 'm': m, 'secrets': list(ss), 'variant': variant})
+                        ctx.case({'field': name, 't': t, 'm': m, 'secrets': list(ss), 'variant': variant}, kind='exhaustive %s %s' % (variant, name))
     thresha.secrets = _secrets
     ctx.extra['exhaustive'] = True
     ctx.extra['dealer_tapes_enumerated'] = n_enum
-    ctx.log('exhaustive enumeration: %d complete oracle-answer sequences through random_split' % n_enum)
+    ctx.log('exhaustive enumeration: %d complete oracle-answer sequences through random_split%s' % (n_enum, ' and np_random_split' if len(variants) > 1 else ''))
     # ---- (b) replay of the explicit inverse
     primes = [5, 7, 11, 101, 257, 2**61 - 1, 18446744073709551557]
     cases, exprs = [], []
